@@ -14,6 +14,45 @@ PROPERTIES = {
     },
 }
 
+PROPERTIES.update({
+    "C03": {
+        "verus": [],
+        "kani_quick": ["k_c03_tagenv_add", "k_c03_asn_tag_from", "k_c03_module_header_from", "k_layout_sentinel_scalars"],
+        "kani_thorough": [],
+        "unverified": [
+            "WHERE the combination rule is applied: ToplevelDefinition::apply_tagging_environment (depth 1 only; never visits SequenceOrSetOf::element_tag or anonymous nested types) — iter_mut().for_each closures over [SequenceOrSetMember] (Kani layout defect; outside Verus's subset)",
+            "TAGS clause parsing (lexer/module_header.rs environments: a module without TAGS clause is parsed as IMPLICIT, pinned by a unit test) and asn_tag (nom combinators)",
+            "format_tag, tagged-CHOICE-forced-explicit, automatic_tags selection (generator/rasn: TokenStream code)",
+            "the clauses 'at every nesting depth', 'tagged CHOICE or open type => explicit' and 'tagged automatically exactly when ...' are NOT decided by this check",
+        ],
+    },
+    "C04": {
+        "verus": [],
+        "kani_quick": ["k_c04_add_assign"],
+        "kani_thorough": [],
+        "unverified": [
+            "subtype-expression parser (lexer/constraint.rs, nom)",
+            "reference resolution in validator/linking/constraints.rs",
+            "fold_constraint_set, intersect_single_and_range, union_single_and_range, compare_optional_asn1values (per_visible.rs:497-1018): union hull, EXCEPT, MIN/MAX handling and operator precedence are NOT decided by this check",
+            "format_range_annotations and fixed_size (TokenStream code)",
+        ],
+    },
+    "C07": {
+        "verus": [],
+        "kani_quick": ["k_c07_hex_to_bools", "k_c07_octet_to_bits", "k_c07_bits_to_octets", "k_c07_well_known", "k_c07_well_known_negative"],
+        "kani_thorough": ["k_c07_bits_to_octets_long"],
+        "kani_bounded": {"k_c07_bits_to_octets": "bit-string lengths {0,1,7,8,9} with symbolic contents", "k_c07_bits_to_octets_long": "lengths {15,16,17,24}",
+                         "k_c07_octet_to_bits": "one octet at a time, all 256 values (complete per octet); slice length 1",
+                         "k_c07_well_known_negative": "a fixed list of 10 non-table names"},
+        "unverified": [
+            "bit_string_value_from_named_bits (validator/linking/mod.rs:1616-1631): scans [DistinguishedValue] (Kani layout defect) with map/any/find_map closures (outside Verus)",
+            "all literal parsing (nom: bstring/hstring/cstring/number/OID) and \"\" unescaping (str::replace)",
+            "link_with_type's dispatch and reference resolution (iterator closures, BTreeMap)",
+            "format_oid and value_to_tokens (TokenStream code)",
+        ],
+    },
+})
+
 # human-readable description of the extraction rules, repeated in every evidence file
 DROP_RULES = {
     "D1": "attributes (derive / cfg_attr / default) on copied type definitions are removed",
